@@ -273,6 +273,8 @@ func trunc(s string, n int) string {
 // Finding is a confirmed or unconfirmed violation.
 type Finding struct {
 	Property  string             `json:"property"`
+	Tier      string             `json:"tier"`
+	Seed      int64              `json:"seed"`
 	Label     string             `json:"label"`
 	Entry     string             `json:"entry"`
 	Args      []int              `json:"args"`
